@@ -185,3 +185,52 @@ func VerifReadHandshakeMsg(ack bool, prv *ecdsa.PrivateKey, r io.Reader) (class 
 	}
 	return class, len(buf), gotPlain
 }
+
+// ---- lifetime of delivered data (C17 follow-up 2)
+
+// VerifLazyMsg is a message exactly as ReadMsg hands it to its caller: the
+// payload has NOT been consumed.  Peer.readLoop passes such a Msg to the protocol
+// goroutine and immediately calls ReadMsg again.
+type VerifLazyMsg struct {
+	Code uint64
+	Size uint32
+	msg  Msg
+}
+
+// ReadMsgLazy is ReadMsg without touching msg.Payload.
+func (v *VerifFrameRW) ReadMsgLazy() (*VerifLazyMsg, string, error) {
+	msg, err := v.rw.ReadMsg()
+	if err != nil {
+		_, _, _, class, _ := v.classify(msg, err)
+		return nil, class, err
+	}
+	return &VerifLazyMsg{Code: msg.Code, Size: msg.Size, msg: msg}, "", nil
+}
+
+func (v *VerifFrameRW) classify(msg Msg, err error) (uint64, uint32, []byte, string, error) {
+	class := "err"
+	switch {
+	case v.conn.sawEOF && (err == io.EOF || err == io.ErrUnexpectedEOF):
+		class = "short"
+	case err == errPlainMessageTooLarge:
+		class = "toolarge"
+	case err.Error() == "bad header MAC":
+		class = "hmac"
+	case err.Error() == "bad frame MAC":
+		class = "fmac"
+	}
+	return msg.Code, msg.Size, nil, class, err
+}
+
+// ReadN consumes up to n bytes of the payload (what a protocol handler's decoder does).
+func (m *VerifLazyMsg) ReadN(n int) []byte {
+	buf := make([]byte, n)
+	k, _ := io.ReadFull(m.msg.Payload, buf)
+	return buf[:k]
+}
+
+// ReadAll consumes the rest of the payload.
+func (m *VerifLazyMsg) ReadAll() []byte { b, _ := ioutil.ReadAll(m.msg.Payload); return b }
+
+// Discard is Msg.Discard.
+func (m *VerifLazyMsg) Discard() error { return m.msg.Discard() }
